@@ -172,7 +172,7 @@ impl Property for C09 {
         "C09"
     }
     fn rule(&self) -> String {
-        "input space = the 4 available journal files (RHEL 9.1 system, Ubuntu 22 user x3, openSUSE 15 system, Ubuntu 16 system) x the ten --journal-output renderings x windows placed relative to the actual entry receive times (on an entry's microsecond incl. duplicated times, +-1us, between, before, after, A=B) x container (plain and generated gz/bz2/xz/lz4/tar) x -t in 15-minute steps. oracle (independent reader): `journalctl --file F -o export --all` parsed with its binary-safe framing gives the entry sequence with __REALTIME_TIMESTAMP and all fields; expected entries = those with A<=t<=B in journalctl's order; s4's output is split with a sentinel separator: count and order must match; export: every printed entry is exactly the entry's KEY=value chunks (any order); cat: MESSAGE text; other renderings: the first line of MESSAGE appears in the printed entry (timestamps of short* renderings are not compared, project Issue #101); container run == plain run. non-trivial = window cuts or a bound sits on an entry time, or rendering != default, or container != plain; distinct = hash(case).".into()
+        "input space = the 4 available journal files (RHEL 9.1 system, Ubuntu 22 user x3, openSUSE 15 system, Ubuntu 16 system) x the ten --journal-output renderings x windows placed relative to the actual entry receive times (on an entry's microsecond incl. duplicated times, +-1us, between, before, after, A=B) x container (plain and generated gz/bz2/xz/lz4/tar) x -t in 15-minute steps. oracle (independent reader): `journalctl --file F -o export --all` parsed with its binary-safe framing gives the entry sequence with __REALTIME_TIMESTAMP and all fields; expected entries = those with A<=t<=B in journalctl's order; s4's output is split with a sentinel separator: count and order must match; export: every printed entry is exactly the entry's KEY=value chunks (any order); cat: MESSAGE text; short* renderings: after the timestamp the entry must read ` HOST IDENT[PID]: MESSAGE` built from the entry's own fields by journalctl's rule (SYSLOG_IDENTIFIER else _COMM; _PID else SYSLOG_PID); verbose: the first line of MESSAGE appears in the printed entry (timestamps of short* renderings are not compared, project Issue #101); container run == plain run. non-trivial = window cuts or a bound sits on an entry time, or rendering != default, or container != plain; distinct = hash(case).".into()
     }
     fn assumptions(&self) -> Vec<String> {
         vec!["journalctl (systemd 252) and libsystemd.so.0 are present; otherwise the check exits 2".into(), "only the shipped journal files are available (no journal writer installed)".into()]
@@ -253,6 +253,36 @@ impl Property for C09 {
                     }
                 }
                 _ => {
+                    // short* renderings: after the timestamp the entry reads " HOST IDENT[PID]: MESSAGE" with
+                    // IDENT = SYSLOG_IDENTIFIER else _COMM and PID = _PID else SYSLOG_PID (journalctl's rule)
+                    if output.starts_with("short") {
+                        let get = |key: &[u8]| e.fields.iter().find(|(k, _)| k.as_slice() == key).map(|(_, v)| v.clone());
+                        let parts = [get(b"_HOSTNAME"), get(b"SYSLOG_IDENTIFIER").or_else(|| get(b"_COMM")), get(b"_PID").or_else(|| get(b"SYSLOG_PID")), message.cloned()];
+                        if parts.iter().flatten().all(|v| std::str::from_utf8(v).is_ok()) {
+                            let mut want: Vec<u8> = vec![];
+                            if let Some(h) = &parts[0] {
+                                want.push(b' ');
+                                want.extend_from_slice(h);
+                            }
+                            if let Some(i) = &parts[1] {
+                                want.push(b' ');
+                                want.extend_from_slice(i);
+                            }
+                            if let Some(p) = &parts[2] {
+                                want.push(b'[');
+                                want.extend_from_slice(p);
+                                want.push(b']');
+                            }
+                            if let Some(msg) = &parts[3] {
+                                want.extend_from_slice(b": ");
+                                want.extend_from_slice(msg);
+                            }
+                            want.push(b'\n');
+                            if !m.ends_with(&want) {
+                                return Outcome::fail("short-fields", format!("{}: entry #{} (realtime {}) printed {:?}, expected it to end with {:?}", ctx, k, e.realtime_us, esc_trunc(m, 300), esc_trunc(&want, 300)));
+                            }
+                        }
+                    }
                     if let Some(msg) = message {
                         let first = msg.split(|&c| c == b'\n').next().unwrap_or(&[]);
                         if !first.is_empty() && std::str::from_utf8(first).is_ok() && !crate::props::c02::contains(m, first) {
